@@ -248,11 +248,18 @@ def aerostruct_level(rep, tier, timeout):
     # two structural surfaces of the same mesh shape whose spars sit at different chord fractions: each surface's loads are
     # transferred with its own spar line
     runs.append(("symL_2x2 x 2 surfaces", 2, 2, True, False, 2))
+    # wingbox structure: the spar line comes from the airfoil data of the surface (through the real ComputeNodes)
+    runs.append(("symL_2x3 wingbox", 2, 3, True, False, -1))
     for (cn, nx, ny, symm, compressible, nsurf) in runs:
+        wingbox, nsurf = nsurf < 0, abs(nsurf)
         surfs = []
         for si in range(nsurf):
-            sx = K.surface(nx, ny, symm, name="wing" if si == 0 else "tail")
-            sx.update({"thickness_cp": np.array([0.1, 0.2]), "twist_cp": np.zeros(2)})
+            sx = K.surface(nx, ny, symm, name="wing" if si == 0 else "tail", **({"fem_model_type": "wingbox"} if wingbox else {}))
+            if wingbox:
+                sx.pop("radius_cp", None)
+                sx.pop("thickness_cp", None)
+            else:
+                sx.update({"thickness_cp": np.array([0.1, 0.2]), "twist_cp": np.zeros(2)})
             if si:
                 sx["fem_origin"] = 0.75
                 sx["mesh"] = sx["mesh"] + np.array([6.0, 0.0, 0.5])
@@ -271,8 +278,12 @@ def aerostruct_level(rep, tier, timeout):
             F = G.get(pre + "aero_states.%s_sec_forces" % nm)  # the physical sectional forces the states group publishes
             dm = G.vals[pre + "%s.def_mesh.displacement_transfer.def_mesh" % nm]
             mesh = G.vals["%s.geometry.mesh.rotate.mesh" % nm] if "%s.geometry.mesh.rotate.mesh" % nm in G.vals else None
-            w = S(s["fem_origin"])
-            spts = [[(ONE - w) * dm[0, j, k] + w * dm[nx - 1, j, k] for k in range(3)] for j in range(ny)]
+            if wingbox:
+                nd = SymComp("structures.compute_nodes", "ComputeNodes", surface=s).sym1({"mesh": dm})["nodes"]
+                spts = [[nd[j, k] for k in range(3)] for j in range(ny)]
+            else:
+                w = S(s["fem_origin"])
+                spts = [[(ONE - w) * dm[0, j, k] + w * dm[nx - 1, j, k] for k in range(3)] for j in range(ny)]
             Fn = vsum([[loads[j, k] for k in range(3)] for j in range(ny)])
             Mn = vsum([[loads[j, 3 + k] for k in range(3)] for j in range(ny)] +
                       [cross([spts[j][k] - p[k] for k in range(3)], [loads[j, k] for k in range(3)]) for j in range(ny)])
@@ -318,11 +329,14 @@ def replay_aerostruct_transfer(surfs, compressible):
         dm = np.array(prob.get_val(pre + "%s.def_mesh" % nm), dtype=float)
         mpf = np.array(prob.get_val(pre + "aero_states.%s_mesh_point_forces" % nm), dtype=float)
         loads = np.array(prob.get_val(pre + "%s_loads.loads" % nm), dtype=float)
-        w = s["fem_origin"]
         pp = np.array([0.3, -0.7, 0.2])
         a = 0.5 * (0.75 * dm[:-1, :-1] + 0.25 * dm[1:, :-1] + 0.75 * dm[:-1, 1:] + 0.25 * dm[1:, 1:])
         Fp, Mp = F.sum(axis=(0, 1)), np.cross(a - pp, F).sum(axis=(0, 1))
-        sp = (1 - w) * dm[0] + w * dm[-1]
+        if s.get("fem_model_type") == "wingbox":
+            sp = np.array(SymComp("structures.compute_nodes", "ComputeNodes", surface=s).real({"mesh": dm})["nodes"], dtype=float)
+        else:
+            w = s["fem_origin"]
+            sp = (1 - w) * dm[0] + w * dm[-1]
         sc = max(1.0, np.abs(Fp).max())
         scm = max(1.0, np.abs(Mp).max())
         for lab, Fx, Mx in (("structural loads", loads[:, :3].sum(axis=0), loads[:, 3:].sum(axis=0) + np.cross(sp - pp, loads[:, :3]).sum(axis=0)),
